@@ -209,3 +209,67 @@ def install_step_contracts(lay):
     LH._transpose = _transpose
     LH._transpose_source_intact = _transpose_source_intact
     LH._verif_wrapped = True
+
+
+def install_swapper_contracts(lay):
+    """same assume/guarantee wrapping for the gather / scatter / local steps of LayoutSwapper"""
+    LSW = lay.LayoutSwapper
+    if getattr(LSW, '_verif_wrapped', False):
+        return
+    orig_t, orig_ts = LSW._transpose, LSW._transpose_source_intact
+
+    def _transpose(self, source, dest, layout_source, layout_dest):
+        orig_t(self, source, dest, layout_source, layout_dest)
+        ses = getattr(lay, '_verif_session', None)
+        if ses is not None:
+            ses.after_step(dest, layout_dest)
+
+    def _transpose_source_intact(self, source, dest, buf, layout_source, layout_dest):
+        pre = source.buf.version()
+        orig_ts(self, source, dest, buf, layout_source, layout_dest)
+        ses = getattr(lay, '_verif_session', None)
+        if ses is not None:
+            ses.after_step(dest, layout_dest, source=source, ls=layout_source, src_pre=pre)
+    LSW._transpose = _transpose
+    LSW._transpose_source_intact = _transpose_source_intact
+    LSW._verif_wrapped = True
+
+
+def concrete_swapper_transpose(shape, nprocs, groups, group_procs, start, src, dst, use_buf, module=None, back=False):
+    """real LayoutSwapper on real numpy under the thread MPI simulator; returns list of problems"""
+    real, _ = modules()
+    if module is not None:
+        real = module
+    size = int(np.prod(nprocs))
+    Gd = np.arange(int(np.prod(shape)), dtype=float).reshape(shape) + 1.0
+    eta = [np.arange(n, dtype=float) for n in shape]
+
+    def rankfn(comm):
+        with warnings.catch_warnings():
+            warnings.simplefilter('ignore')
+            sw = real.LayoutSwapper(comm, [dict(g) for g in groups], [p if isinstance(p, int) else list(p) for p in group_procs], eta, start)
+            ls, ld = sw.getLayout(src), sw.getLayout(dst)
+            s = np.full(sw.bufferSize, -1.0)
+            d = np.full(sw.bufferSize, -2.0)
+            b = np.full(sw.bufferSize, -3.0) if use_buf else None
+            sl = tuple(slice(a, e) for a, e in zip(ls.starts, ls.ends))
+            s[:ls.size] = np.transpose(Gd, ls.dims_order)[sl].flatten()
+            s0 = s.copy()
+            sw.transpose(s, d, src, dst, b)
+            dl = tuple(slice(a, e) for a, e in zip(ld.starts, ld.ends))
+            exp = np.transpose(Gd, ld.dims_order)[dl].flatten()
+            out = []
+            if not np.array_equal(d[:ld.size], exp):
+                out.append('rank %d: destination block differs from the global field' % comm.Get_rank())
+            if use_buf and not np.array_equal(s[:ls.size], s0[:ls.size]):
+                out.append('rank %d: source block modified although a buffer was supplied' % comm.Get_rank())
+            if sw._current_manager is not sw._managers[sw._handlers[dst]]:
+                out.append('rank %d: current manager not updated' % comm.Get_rank())
+            return out
+    probs = []
+    try:
+        for r in simmpi.World(size).run(rankfn):
+            probs += r
+    except Exception as e:
+        probs.append('%s: %s' % (type(e).__name__, e))
+    return probs
